@@ -13,8 +13,8 @@ import (
 )
 
 func init() {
-	modes["C09"] = func(res *lp.Result) { runInflight(res, "C09") }
-	modes["C10"] = func(res *lp.Result) { runInflight(res, "C10") }
+	modes["C09"] = func(res *lp.Result) { runInflight(res, "C09"); runInflightConcurrent(res); runInflightConnection(res) }
+	modes["C10"] = func(res *lp.Result) { runInflight(res, "C10"); runRoutingConnection(res) }
 }
 
 type infOp struct {
